@@ -66,6 +66,13 @@ struct TaggedView<P> {
     tag: std::os::raw::c_int,
     payload: P,
 }
+/// `struct CGlueObjContainer_.. { instance; context; ret_tmp; }` as the headers declare it
+#[repr(C)]
+struct ContView<T, R> {
+    instance: BoxView<T>,
+    context: ArcView<u64>,
+    ret_tmp: R,
+}
 #[repr(C)]
 union ResUnion<T, E> {
     ok: ManuallyDrop<T>,
@@ -146,7 +153,7 @@ impl El for Wide {
 
 #[derive(Debug, Clone, Serialize, Deserialize)]
 pub struct Case {
-    /// 0 CBox 1 CSliceBox 2 CArc/CArcSome 3 slices 4 CVec 5 callback 6 iterator 7 COption 8 CResult
+    /// 0 CBox 1 CSliceBox 2 CArc/CArcSome 3 slices 4 CVec 5 callback 6 iterator 7 COption 9 object container, else CResult
     pub carrier: u8,
     pub elem: u8,
     pub n: u8,
@@ -160,7 +167,7 @@ fn val(c: &Case, i: usize) -> u64 {
 
 fn body<T: El>(c: &Case) -> Result<bool, Fail> {
     let n = c.n as usize;
-    match c.carrier % 9 {
+    match c.carrier % 10 {
         0 => {
             same_layout::<CBox<T>, BoxView<T>>("CBox")?;
             let b = CBox::from(T::mk(val(c, 0)));
@@ -340,6 +347,37 @@ fn body<T: El>(c: &Case) -> Result<bool, Fail> {
             ensure!(!made.is_some(), "option-tag", "a {{tag=0}} made by C is not None");
             Ok(true)
         }
+        9 => {
+            // the object container every trait object and group embeds: a C caller reaches the
+            // instance handle, the context arc and the temporary-return storage at the published
+            // offsets (the generated ctx clone/drop helpers of the headers do exactly that)
+            fn cont<T: El, R: Default + PartialEq + std::fmt::Debug + 'static>(c: &Case) -> Result<bool, Fail> {
+                type Cont<T, R> = cglue::trait_group::CGlueObjContainer<CBox<'static, T>, CArc<u64>, R>;
+                same_layout::<Cont<T, R>, ContView<T, R>>("CGlueObjContainer")?;
+                let arc = Arc::new(val(c, 1));
+                let weak = Arc::downgrade(&arc);
+                let obj: Cont<T, R> = (CBox::from(T::mk(val(c, 0))), CArc::from(arc)).into();
+                let v: ContView<T, R> = unsafe { as_view(obj) };
+                ensure!(!v.instance.instance.is_null() && unsafe { &*v.instance.instance } == &T::mk(val(c, 0)), "container-fields", "container.instance.instance does not point to the value");
+                ensure!(v.context.instance == weak.as_ptr(), "container-fields", "container.context is not at the published offset (its instance field is not the context arc's pointer)");
+                ensure!(v.ret_tmp == R::default(), "container-fields", "container.ret_tmp is not at the published offset: {:?}", v.ret_tmp);
+                let cl = v.context.clone_fn.ok_or_else(|| Fail::new("container-fields", "container.context.clone_fn missing"))?;
+                let dr = v.context.drop_fn.ok_or_else(|| Fail::new("container-fields", "container.context.drop_fn missing"))?;
+                let extra = unsafe { cl(v.context.instance) }; // C: ctx_arc_clone(&obj.container.context)
+                ensure!(weak.strong_count() == 2, "arc-count", "strong count {} after a clone through container.context", weak.strong_count());
+                unsafe { dr(extra) };
+                unsafe { dr(v.context.instance) }; // C: ctx_arc_drop(&obj.container.context)
+                ensure!(weak.strong_count() == 0, "arc-count", "strong count {} after releasing container.context", weak.strong_count());
+                let f = v.instance.drop_fn.ok_or_else(|| Fail::new("container-fields", "container.instance.drop_fn missing"))?;
+                unsafe { f(v.instance.instance) };
+                Ok(true)
+            }
+            match n % 3 {
+                0 => cont::<T, ()>(c),
+                1 => cont::<T, [usize; 3]>(c),
+                _ => cont::<T, Option<Box<u8>>>(c),
+            }
+        }
         _ => {
             same_layout::<CResult<T, u16>, TaggedView<ResUnion<T, u16>>>("CResult<T,u16>")?;
             same_layout::<CResult<u8, T>, TaggedView<ResUnion<u8, T>>>("CResult<u8,T>")?;
@@ -372,22 +410,22 @@ pub fn check(c: &Case) -> CaseResult {
     let bad = tok::mismatches(|_| 1);
     ensure!(bad.is_empty(), "drop-count", "values with drop count != 1 (id, expected, seen): {:?}", &bad[..bad.len().min(4)]);
     if !rep.clean() {
-        fail!(if rep.misuses.is_empty() { "leak" } else { "alloc-misuse" }, "{} (carrier {}, elem {})", rep.describe(), c.carrier % 9, c.elem % 7);
+        fail!(if rep.misuses.is_empty() { "leak" } else { "alloc-misuse" }, "{} (carrier {}, elem {})", rep.describe(), c.carrier % 10, c.elem % 7);
     }
     Ok(Info::new(nontrivial)
-        .class(["CBox", "CSliceBox", "CArc", "CSlice", "CVec", "Callback", "CIterator", "COption", "CResult"][(c.carrier % 9) as usize])
+        .class(["CBox", "CSliceBox", "CArc", "CSlice", "CVec", "Callback", "CIterator", "COption", "CResult", "CGlueObjContainer"][(c.carrier % 10) as usize])
         .class(format!("elem{}", c.elem % 7)))
 }
 
 pub fn strategy() -> impl Strategy<Value = Case> {
-    (0u8..9, 0u8..7, 0u8..40, prop::collection::vec(any::<u64>(), 1..6), any::<bool>()).prop_map(|(carrier, elem, n, vals, flag)| Case { carrier, elem, n, vals, flag })
+    (0u8..10, 0u8..7, 0u8..40, prop::collection::vec(any::<u64>(), 1..6), any::<bool>()).prop_map(|(carrier, elem, n, vals, flag)| Case { carrier, elem, n, vals, flag })
 }
 
 pub fn run(ctx: &Ctx) -> i32 {
     if ctx.is_replay() {
         ctx.run("views", 1, strategy(), check);
     } else {
-        'o: for carrier in 0..9u8 {
+        'o: for carrier in 0..10u8 {
             for elem in 0..7u8 {
                 for n in [0u8, 1, 2, 7] {
                     for flag in [false, true] {
@@ -402,7 +440,7 @@ pub fn run(ctx: &Ctx) -> i32 {
         ctx.run("views", ctx.n(20_000, 300_000), strategy(), check);
     }
     ctx.finish(
-        "carrier in {CBox, CSliceBox, CArc/CArcSome, CSliceRef/CSliceMut, CVec, OpaqueCallback, CIterator, COption, CResult} x element types {u8,u16,u32,u64,24-byte struct,64-byte-aligned struct,droppable heap token} x sizes 0..40 (full product of carrier x element x small sizes enumerated, then random): the value is bit-copied into a C-view struct declared from the published layout (field order, function signatures, enum = {int tag; union}) and released / cloned / read / grown / invoked / advanced only through the view; effects (contents, strong counts, drop counts, allocator balance and layouts) are compared with the Rust-side model, and values assembled from C fields are handed back to Rust. Non-trivial = the operation goes through a function pointer or reads a non-first field",
+        "carrier in {CBox, CSliceBox, CArc/CArcSome, CSliceRef/CSliceMut, CVec, OpaqueCallback, CIterator, COption, CResult, CGlueObjContainer{CBox, CArc context, empty / non-empty temporary storage}} x element types {u8,u16,u32,u64,24-byte struct,64-byte-aligned struct,droppable heap token} x sizes 0..40 (full product of carrier x element x small sizes enumerated, then random): the value is bit-copied into a C-view struct declared from the published layout (field order, function signatures, enum = {int tag; union}) and released / cloned / read / grown / invoked / advanced only through the view; effects (contents, strong counts, drop counts, allocator balance and layouts) are compared with the Rust-side model, and values assembled from C fields are handed back to Rust. Non-trivial = the operation goes through a function pointer or reads a non-first field",
         &["the view structs in the harness are the statement of the published layout (cross-checked against examples/pregen-headers in DESIGN.md)"],
         false,
     )
